@@ -149,12 +149,12 @@ register(
         "C11",
         T.gen_C11,
         T.run_C11,
-        700,
+        500,
         15000,
         "fault_enumeration",
         "per sampled history: close+reopen inserted at EVERY position (one variant per position, all enumerated), plus seeded multi-restart sets and 'reopen after every request', plus clear(default, rules) at seeded positions against a fresh index; every variant compared request by request (outcome, bytes of both stores) and answer by answer with the never-closed baseline; non-trivial when >= 3 requests and >= 2 pages; distinct = distinct baseline digests",
         "restart twin (fault enumeration over restart positions)",
-        components_stub=STUBS + ["(8% of runs on real files: Python's buffered file objects, real close/reopen)"],
+        components_stub=STUBS + ["(20% of runs on real files: Python's buffered file objects, real close/reopen/clear)"],
         fault_kinds=["reopen", "clear", "restart_variants"],
         assumptions=["rules are re-supplied on reopen as the API requires", "clear() without rule arguments is not an equivalence case (the statement defines the result only for the rules given to the clear request)"],
     )
